@@ -135,17 +135,39 @@ impl Prop for C18 {
             // every outcome is far from a boundary
             // each explicit operation is bound to the press or to the release of its key
             let forms: Vec<&str> = (0..4).map(|_| if r.chance(500) { "on-press" } else { "on-release" }).collect();
+            // k: (release-key 1) lets go of the virtual key's output key (the virtual key is up
+            // afterwards); s c d: a sequence whose virtual key is vk1 (a tap "triggered from a
+            // sequence"); "gg": two toggles within the same millisecond
             case.cfg = format!(
-                "(defsrc a p r t g)\n(defvirtualkeys vk1 1)\n(deflayer l0 (hold-for-duration 100 vk1) ({} press-vkey vk1) ({} release-vkey vk1) ({} tap-vkey vk1) ({} toggle-vkey vk1))\n",
+                "(defsrc a p r t g k s c d)\n(defvirtualkeys vk1 1)\n(defseq vk1 (c d))\n(deflayer l0 (hold-for-duration 100 vk1) ({} press-vkey vk1) ({} release-vkey vk1) ({} tap-vkey vk1) ({} toggle-vkey vk1) (release-key 1) sldr c d)\n",
                 forms[0], forms[1], forms[2], forms[3]
             );
             case.set("forms", forms.join(","));
             let mut ops = vec![Op::Gap(2)];
             for _ in 0..r.range(2, 7) {
-                let k = oscode_of(*r.pick(&["a", "a", "a", "p", "r", "r", "t", "g"]));
-                ops.push(Op::Press(k));
-                ops.push(Op::Gap(3));
-                ops.push(Op::Release(k));
+                let name = *r.pick(&["a", "a", "a", "a", "p", "r", "r", "t", "g", "k", "k", "seq", "seq", "gg"]);
+                match name {
+                    "seq" => {
+                        for kn in ["s", "c", "d"] {
+                            ops.push(Op::Press(oscode_of(kn)));
+                            ops.push(Op::Gap(3));
+                            ops.push(Op::Release(oscode_of(kn)));
+                            if kn != "d" {
+                                ops.push(Op::Gap(3));
+                            }
+                        }
+                    }
+                    "gg" => {
+                        let g = oscode_of("g");
+                        ops.extend([Op::Press(g), Op::Release(g), Op::Press(g), Op::Release(g)]);
+                    }
+                    _ => {
+                        let k = oscode_of(name);
+                        ops.push(Op::Press(k));
+                        ops.push(Op::Gap(3));
+                        ops.push(Op::Release(k));
+                    }
+                }
                 ops.push(Op::Gap(*r.pick(&[12u32, 37, 157])));
             }
             // leave it released
@@ -326,6 +348,7 @@ impl Prop for C18 {
             let mut down = false;
             let mut deadline: Option<u64> = None;
             let mut intervals: Vec<(u64, u64)> = vec![];
+            let mut release_key_during_hfd = false;
             let mut since = 0u64;
             let mut close = |down: &mut bool, since: u64, at: u64, intervals: &mut Vec<(u64, u64)>| {
                 if *down {
@@ -346,7 +369,7 @@ impl Prop for C18 {
                         tm = end;
                     }
                     Op::Press(c) | Op::Release(c) => {
-                        let name = ["a", "p", "r", "t", "g"].iter().find(|n| oscode_of(n) == *c).copied().unwrap_or("?");
+                        let name = ["a", "p", "r", "t", "g", "k", "d"].iter().find(|n| oscode_of(n) == *c).copied().unwrap_or("?");
                         // the operation happens at the press or at the release of its key
                         let on_release = match name {
                             "p" => forms.first() == Some(&"on-release"),
@@ -378,7 +401,16 @@ impl Prop for C18 {
                                 close(&mut down, since, at, &mut intervals);
                                 deadline = None;
                             }
-                            "t" => {
+                            "k" => {
+                                // cause tag of a known finding: release-key let go of the output key
+                                // while a timed release of hold-for-duration was pending
+                                if deadline.is_some() {
+                                    release_key_during_hfd = true;
+                                }
+                                close(&mut down, since, at, &mut intervals);
+                                deadline = None;
+                            }
+                            "t" | "d" => {
                                 // a tap of a key that is down releases it (and presses nothing new that lasts)
                                 close(&mut down, since, at, &mut intervals);
                                 intervals.push((at, at + 1));
@@ -437,12 +469,19 @@ impl Prop for C18 {
                 out
             };
             let (want, gotn) = (norm(&intervals), norm(&got));
-            let close_enough = want.len() == gotn.len() && want.iter().zip(gotn.iter()).all(|(w, g)| w.0.abs_diff(g.0) <= 4 && w.1.abs_diff(g.1) <= 4);
+            // (a blip - a tap, or two toggles in the same millisecond - comes out a few ticks later when
+            // its events wait in the queue behind the key events of that millisecond)
+            let close_enough = want.len() == gotn.len()
+                && want.iter().zip(gotn.iter()).all(|(w, g)| {
+                    let tol = if w.1 - w.0 <= 2 && g.1 - g.0 <= 2 { 7 } else { 4 };
+                    w.0.abs_diff(g.0) <= tol && w.1.abs_diff(g.1) <= tol
+                });
             let d = st.down_set();
             if !d.is_empty() {
                 o.set_fail("C18:stuck-at-end", format!("still down: {:?}: {}", d.keys, outs_short(&outs)), vec![]);
             } else if !close_enough {
-                o.set_fail("C18:virtual-key-state-differs-from-reference", format!("payload key down-intervals: expected about {want:?}, got {gotn:?}; ops {} :: {}", ops_short(&case.ops), outs_short(&outs)), vec![]);
+                let tags = if release_key_during_hfd { vec!["release-key-while-hold-for-duration-pending".to_string()] } else { vec![] };
+                o.set_fail("C18:virtual-key-state-differs-from-reference", format!("payload key down-intervals: expected about {want:?}, got {gotn:?}; ops {} :: {}", ops_short(&case.ops), outs_short(&outs)), tags);
             }
             if want_sample {
                 o.sample = Some(sample_json(case, &outs, json!({"pop": "hfd-mixed"})));
